@@ -143,7 +143,36 @@ func (e *enc) callCommon(b *ssa.BasicBlock, ins ssa.Instruction, cc *ssa.CallCom
 			e.siteAsserts(ins, fmt.Sprintf("call %d of dynamic", e.callOrd["dynamic"]), sig, args, R)
 			e.siteExtra = nil
 		}
-		e.addI("safe", "nil-func", ins, R, fmt.Sprintf("(not (= %s 0))", fv))
+		if e.closureCellTarget(cc.Value) == nil {
+			e.addI("safe", "nil-func", ins, R, fmt.Sprintf("(not (= %s 0))", fv))
+		}
+		// a local function variable assigned once with a function literal (mutually recursive local
+		// closures): the call is a call of that literal, under its contract
+		if fn := e.closureCellTarget(cc.Value); fn != nil {
+			if fc := e.w.CS.Funcs[funcKey(fn)]; fc != nil {
+				key := funcKey(fn)
+				e.callOrd[key] = e.ordOf(ins, "dynamic")
+				fc.Used = true
+				e.lexicalCallee = true
+				e.applyContract(ins, fc, key, fn.Signature, "", nil, args, cc.Args, res, R)
+				e.lexicalCallee = false
+				return
+			}
+		}
+		// a function held in a struct field under contract ("functype T.field")
+		if ld, ok := cc.Value.(*ssa.UnOp); ok {
+			if fa, ok := ld.X.(*ssa.FieldAddr); ok {
+				pt := fa.X.Type().Underlying().(*types.Pointer).Elem()
+				if nt, ok := pt.(*types.Named); ok && nt.Obj().Pkg() != nil {
+					k := nt.Obj().Pkg().Name() + "." + nt.Obj().Name() + "." + pt.Underlying().(*types.Struct).Field(fa.Field).Name()
+					if fc := e.w.CS.FuncTypes[k]; fc != nil {
+						fc.Used = true
+						e.applyContract(ins, fc, "functype:"+k, cc.Value.Type().Underlying().(*types.Signature), "", nil, args, cc.Args, res, R)
+						return
+					}
+				}
+			}
+		}
 		if sig, ok := cc.Value.Type().Underlying().(*types.Signature); ok && e.f.Pkg != nil {
 			// a value of a named function type under contract (or of the identical unnamed signature)
 			var keys []string
@@ -343,6 +372,19 @@ func (e *enc) builtin(b *ssa.BasicBlock, ins ssa.Instruction, bi *ssa.Builtin, c
 		} else {
 			ylen = e.ilit(0)
 		}
+		if pt, ok := el.(*types.Pointer); ok {
+			if nt, ok := pt.Elem().(*types.Named); ok && nt.Obj().Pkg() != nil {
+				if td := e.w.CS.Types[nt.Obj().Pkg().Name()+"."+nt.Obj().Name()]; td != nil && td.NonnilElems && sliceOrigin(cc.Args[0], 0) == "H_"+td.Pkg+"."+td.Type+"."+td.NonnilElemsField {
+					if vals, ok := e.varargValues(cc.Args[1]); ok {
+						for _, v := range vals {
+							e.addI("inv", "nonnil-elems:"+nt.Obj().Name(), ins, R, fmt.Sprintf("(not (= %s 0))", e.val(v)))
+						}
+					} else {
+						e.addI("inv", "nonnil-elems:"+nt.Obj().Name(), ins, R, "false") // appending a whole slice: not supported for this declaration
+					}
+				}
+			}
+		}
 		e.assume(fmt.Sprintf("(= (len %s) %s)", n, e.iadd("(len "+x+")", ylen)))
 		e.assume(fmt.Sprintf("(> (arr %s) 0)", n))
 		if _, isStruct := el.Underlying().(*types.Struct); isStruct || es == "SV" {
@@ -511,6 +553,12 @@ func (e *enc) applyContract(ins ssa.Instruction, fc *FuncContract, key string, s
 	}
 	pre := e.heap.clone()
 	env.st, env.old = pre, pre
+	if e.lexicalCallee {
+		// the callee is a sibling / child literal of the same lexical scope: its captured variables are
+		// the caller's variables of the same name
+		se := e.siteEnv(ins)
+		env.lookup = se.lookup
+	}
 	// a closure's captured variables: resolved through the bindings of the MakeClosure
 	if ci, ok := ins.(ssa.CallInstruction); ok {
 		if mc, ok := ci.Common().Value.(*ssa.MakeClosure); ok {
@@ -577,7 +625,13 @@ func (e *enc) applyContract(ins ssa.Instruction, fc *FuncContract, key string, s
 			env.vars["old_"+k] = v
 		}
 	}
-	for _, c := range fc.Ensures {
+	ens := fc.Ensures
+	if fc.Extra != nil {
+		// trusted facts declared by another package for this (checked) function
+		ens = append(append([]Clause{}, ens...), fc.Extra.Ensures...)
+		e.assumptions["trusted facts about "+key+" declared in package "+fc.Extra.Pkg] = true
+	}
+	for _, c := range ens {
 		if res == nil && mentionsResult(c.Expr) {
 			continue
 		}
@@ -602,6 +656,9 @@ func mentionsResult(ex CExpr) bool {
 
 // havocPerAssigns applies the frame of a contract: unspecified = everything.
 func (e *enc) havocPerAssigns(ins ssa.Instruction, fc *FuncContract, env *cenv) {
+	if !fc.HasAssigns && fc.Extra != nil && fc.Extra.HasAssigns {
+		fc = fc.Extra
+	}
 	if !fc.HasAssigns {
 		e.havocByEffects(ins)
 		return
@@ -1090,4 +1147,103 @@ func (e *enc) ordOf(ins ssa.Instruction, key string) int {
 	// (deferred calls are re-encoded where the defers run: same instruction, same ordinal)
 	e.callOrd[key]++
 	return e.callOrd[key]
+}
+
+// closureCellTarget: v is a load of a local function variable (directly, or through a captured
+// variable) which is assigned exactly once, with a function literal. Returns that literal.
+func (e *enc) closureCellTarget(v ssa.Value) *ssa.Function {
+	ld, ok := v.(*ssa.UnOp)
+	if !ok || ld.Op != token.MUL {
+		return nil
+	}
+	var cell *ssa.Alloc
+	owner := e.f
+	switch x := ld.X.(type) {
+	case *ssa.Alloc:
+		cell = x
+	case *ssa.FreeVar:
+		// walk up to the function owning the variable
+		f := e.f
+		var fv ssa.Value = x
+		for f != nil {
+			fvar, ok := fv.(*ssa.FreeVar)
+			if !ok {
+				break
+			}
+			idx := -1
+			for i, q := range f.FreeVars {
+				if q == fvar {
+					idx = i
+				}
+			}
+			parent := f.Parent()
+			if idx < 0 || parent == nil {
+				return nil
+			}
+			var bound ssa.Value
+			for _, b := range parent.Blocks {
+				for _, ins := range b.Instrs {
+					if mc, ok := ins.(*ssa.MakeClosure); ok && mc.Fn == f && idx < len(mc.Bindings) {
+						bound = mc.Bindings[idx]
+					}
+				}
+			}
+			if bound == nil {
+				return nil
+			}
+			fv = bound
+			f = parent
+			owner = parent
+		}
+		a, ok := fv.(*ssa.Alloc)
+		if !ok {
+			return nil
+		}
+		cell = a
+	default:
+		return nil
+	}
+	// exactly one store to the cell in the owning function, none elsewhere (closures write through free vars)
+	var target *ssa.Function
+	n := 0
+	for _, b := range owner.Blocks {
+		for _, ins := range b.Instrs {
+			if st, ok := ins.(*ssa.Store); ok && st.Addr == cell {
+				n++
+				if mc, ok := st.Val.(*ssa.MakeClosure); ok {
+					target, _ = mc.Fn.(*ssa.Function)
+				} else if c, ok := st.Val.(*ssa.Const); ok && c.Value == nil {
+					n-- // "var f func()" zero initialisation
+				}
+			}
+		}
+	}
+	for _, an := range owner.AnonFuncs {
+		if writesFreeVarOf(an, cell, owner) {
+			return nil
+		}
+	}
+	if n != 1 {
+		return nil
+	}
+	return target
+}
+
+// writesFreeVarOf: some literal nested in owner stores to the captured cell.
+func writesFreeVarOf(f *ssa.Function, cell *ssa.Alloc, owner *ssa.Function) bool {
+	for _, b := range f.Blocks {
+		for _, ins := range b.Instrs {
+			if st, ok := ins.(*ssa.Store); ok {
+				if fv, ok := st.Addr.(*ssa.FreeVar); ok && fv.Name() == cell.Comment {
+					return true
+				}
+			}
+		}
+	}
+	for _, an := range f.AnonFuncs {
+		if writesFreeVarOf(an, cell, owner) {
+			return true
+		}
+	}
+	return false
 }
